@@ -33,6 +33,29 @@ theorem C02_injective (H : Bytes → Bytes) (hinj : ∀ a b, H a = H b → a = b
     t1.columns = t2.columns ∧ t1.pk = t2.pk ∧ t1.blocks = t2.blocks :=
   tableId_injective H hinj sortPerm 65535 (by decide) t1 t2 id hwf1 hwf2 hr1 hr2 e1 e2
 
+/-- A different key choice is a different table, whatever the columns are called: two stored tables
+    whose keys (lists of column positions) differ cannot get one identifier - also when both keys read
+    the same once their column names are joined into one string (the column `last,first` against the
+    columns `last`, `first`). So a commit whose key choice changed is never "no change". -/
+theorem C02_key_change_changes_id (H : Bytes → Bytes) (hinj : ∀ a b, H a = H b → a = b)
+    (sortPerm : List Bytes → List Nat) (t1 t2 : StoredTable) (id1 id2 : Bytes)
+    (hwf1 : (tableObjOf H sortPerm 65535 t1).WF) (hwf2 : (tableObjOf H sortPerm 65535 t2).WF)
+    (hr1 : ∀ b ∈ t1.blocks, b.length < 2 ^ 32 ∧ ∀ r ∈ b, r.length < 2 ^ 32 ∧ ∀ c ∈ r, c.length ≤ 65535)
+    (hr2 : ∀ b ∈ t2.blocks, b.length < 2 ^ 32 ∧ ∀ r ∈ b, r.length < 2 ^ 32 ∧ ∀ c ∈ r, c.length ≤ 65535)
+    (e1 : tableId H sortPerm 65535 t1 = .ok id1) (e2 : tableId H sortPerm 65535 t2 = .ok id2)
+    (hpk : t1.pk ≠ t2.pk) : id1 ≠ id2 := by
+  intro h
+  subst h
+  exact hpk (C02_injective H hinj sortPerm t1 t2 id1 hwf1 hwf2 hr1 hr2 e1 e2).2.1
+
+/-- Why a key has to be compared as a list of names: writing the names out with a separator is not
+    injective - the one-column key `x,y` and the two-column key `x`, `y` are written alike. A test
+    "is this the key the cached table was made with" that compares the written form answers yes for
+    a different key, against `C02_key_change_changes_id`. -/
+theorem C02_joined_key_names_ambiguous :
+    ∃ a b : List String, a ≠ b ∧ String.intercalate "," a = String.intercalate "," b :=
+  ⟨["x,y"], ["x", "y"], by decide, by decide⟩
+
 /-- Re-committing unchanged data is detected: the commit command compares table identifiers, which
     by the two theorems above are equal exactly when the logical tables are. (The comparison itself,
     `bytes.Equal(sum, oldSum)` in commitIfBranchFileHasChanged, is observed by the runs.) -/
